@@ -8,6 +8,7 @@ package props
 import (
 	kcp "github.com/xtaci/kcp-go/v5"
 	"testing"
+	"time"
 
 	"pgregory.net/rapid"
 	"verif/harness/hx"
@@ -124,6 +125,57 @@ func TestC01Session(t *testing.T) {
 		if rec.WantSample() {
 			dd := describePair(cfg, fs, app)
 			dd["snmp_delta"] = d
+			rec.Sample(dd)
+		}
+	})
+}
+
+// TestC01FreeRun: the same content oracle with the lock-step loop switched
+// off: application goroutines (one writer and one reader per direction), the
+// sessions' own goroutines, a scheduler runner and one goroutine per datagram
+// in flight run concurrently in virtual time; the Go scheduler chooses the
+// interleaving (the thorough tier also builds this test with -race).
+func TestC01FreeRun(t *testing.T) {
+	rec := hx.NewRecorder(t)
+	rapid.Check(t, func(rt *rapid.T) {
+		cfg := drawPairCfg(rt, pairGenOpts{})
+		fs := sim.DrawFateScript(rt, sim.FateOpts{MaxExplicit: 16, MaxRegimes: 3, MaxRegLen: 200, MaxDelay: 800, MaxOutageMs: 5000, MaxOutages: 1, MaxLossPm: 300})
+		app := drawSessApps(rt, pairMSS(cfg), 20, 100_000)
+		if cfg.Listener && len(app[0].Writes) == 0 {
+			app[0].Writes = []int{1}
+		}
+		var fr *sim.FreeRun
+		completed := false
+		var d snmpDelta
+		rapid.SyncTest(rt, func(rt *rapid.T) {
+			before := kcp.DefaultSnmp.Copy()
+			fr = &sim.FreeRun{Cfg: cfg, Fates: fs, App: app}
+			var err error
+			completed, err = fr.Run(20 * time.Minute)
+			d = snmpSince(before)
+			if err != nil {
+				rt.Fatalf("C01 (free-running sessions): %v\ncase: %+v", err, describePair(cfg, fs, app))
+			}
+		})
+		cl := []string{"cipher_" + cfg.Cipher}
+		if completed {
+			cl = append(cl, "completed")
+		}
+		if d.Retrans > 0 {
+			cl = append(cl, "retransmission")
+		}
+		if d.FECRecovered > 0 {
+			cl = append(cl, "fec_recovery_used")
+		}
+		if cfg.Listener {
+			cl = append(cl, "via_listener")
+		}
+		rec.Add("n_reads", fr.Reads.Load())
+		rec.Case(hx.Hash64(describePair(cfg, fs, app)), d.Retrans > 0 && fr.Reads.Load() > 3, cl...)
+		if rec.WantSample() {
+			dd := describePair(cfg, fs, app)
+			dd["datagrams"] = fr.Sent.Load()
+			dd["dropped"] = fr.Dropped.Load()
 			rec.Sample(dd)
 		}
 	})
